@@ -1,5 +1,6 @@
-(* C07, the part that can be stated of the SOURCE AS IT IS NOW.  The assign walk mutates through `&mut Value` (hand-written
-   model + differential tie; the five laws are Properties/C07.v).  What the laws are read with, and what assign decides
+(* C07, the part that can be stated of the SOURCE AS IT IS NOW.  The five laws are Properties/C07.v (on the specification and the
+   hand-written model); the assign walk of the current source is re-translated in lens mode and proved equal to that model
+   (second part of this file), which carries the laws over to the source.  What the laws are read with, and what assign decides
    with, is re-translated from the source on every run: resolve (read-your-write and the frame are statements about what
    resolve finds afterwards), the INCLUSIVE bound check for_len_incl (index = length and '-' append, anything larger is the
    only OutOfBounds), and expand (what is created below the first missing position). *)
@@ -29,3 +30,19 @@ Example C07_src_examples :
   gen_Index_for_len_incl (Index_Num 2) 2 = Ret (Ok 2) /\ gen_Index_for_len_incl (Index_Num 3) 2 = Ret (Err (mk_OutOfBoundsError 2 3)) /\
   gen_json_expand [47; 48; 47; 107] (VInt 1) = Ret (Arr [Obj [([107], VInt 1)]]).
 Proof. vm_compute. repeat split. Qed.
+
+(* ==== the assign walk itself, re-translated in lens mode (DESIGN 13.8) =================================================== *)
+From JP Require Import Model.Pointer SpecHist Proofs.HistoryProofs Generated.ScanTreeMut Proofs.GenEquivTreeMut Proofs.GenClosureMut.
+
+(* atomic on error, OF THE SOURCE: a failed assign hands back the very document it was given, for every pointer text *)
+Theorem C07_src_atomic_on_error : forall (be : backend) (d : value) (p : str) (v d' : value) (e : AssignError),
+  sorted_value d -> gen_assign be d (lens_root d) p v = Ret (d', Err e) -> d' = d.
+Proof. exact gen_assign_atomic. Qed.
+Print Assumptions C07_src_atomic_on_error.
+
+(* the source's assign is the specification's, so every law of Properties/C07.v about [spec_assign] is a law of the source *)
+Theorem C07_src_assign_is_spec : forall (be : backend) (d : value) (p : str) (v : value),
+  sorted_value d -> valid_ptr p = true ->
+  omap model_aout (gen_assign be d (lens_root d) p v) = Ret (spec_assign (tokens p) d v 0 0).
+Proof. exact gen_assign_refines. Qed.
+Print Assumptions C07_src_assign_is_spec.
